@@ -42,9 +42,17 @@ Env == <<
   [n |-> "VD",     kind |-> "type", ty |-> O2("k", LS("d"), "d", Prim("Date"))],
   [n |-> "UD",     kind |-> "type", ty |-> Uni(<<Ref("VB"), Ref("VD")>>)],
   [n |-> "InlineD", kind |-> "type", ty |-> Uni(<<O2("k", LS("p"), "p", TNumber), O2("k", LS("dd"), "d", Prim("Date"))>>)],
-  [n |-> "HD",     kind |-> "type", ty |-> O2("i", Ref("InlineD"), "ud", Ref("UD"))]
+  [n |-> "HD",     kind |-> "type", ty |-> O2("i", Ref("InlineD"), "ud", Ref("UD"))],
+  \* a printable type that refers back to an unprintable one: what stays in the context when printing A2 throws?
+  [n |-> "A2",     kind |-> "type", ty |-> O2("b", Ref("B2"), "m", MapT(TString, TNumber))],
+  [n |-> "B2",     kind |-> "type", ty |-> O2o("x", TNumber, "a", Ref("A2"))],
+  [n |-> "PB2",    kind |-> "type", ty |-> O1("b", Ref("B2"))],
+  \* names that are special for JavaScript objects (Object.prototype members) and for String.replace ($$ patterns)
+  [n |-> "toString", kind |-> "type", ty |-> O1("t", TNumber)],
+  [n |-> "A$$B",   kind |-> "type", ty |-> O1("d", TNumber)],
+  [n |-> "HN",     kind |-> "type", ty |-> O2("p", Ref("toString"), "q", Ref("A$$B"))]
 >>
-Parsers == {"Tree", "A", "B", "U", "Holder", "Inline", "VA", "Bad", "P2", "VD", "UD", "InlineD", "HD", "VB"}
+Parsers == {"Tree", "A", "B", "U", "Holder", "Inline", "VA", "Bad", "P2", "VD", "UD", "InlineD", "HD", "VB", "A2", "PB2", "HN"}
 \* configuration with namedTypeSchemaOverrides: VA is printed as VAo
 Overrides == [VA |-> "VAo"]
 Names == {Env[i].n : i \in DOMAIN Env}
@@ -126,7 +134,9 @@ Call(p) ==
   /\ Len(calls) < MaxCalls
   /\ calls' = Append(calls, p)
   /\ LET r == CallResult(p, ctx, useOverrides) IN
-     /\ ctx' = St(r.col, r.prog, FALSE)
+     \* a call that throws leaves the context as it was (schemaWithContext rolls back); deviation "failedPrintKeepsDefinitions":
+     \* the definitions completed before the failure stay - they may refer to the name that failed and is never exported
+     /\ ctx' = IF r.err /\ "failedPrintKeepsDefinitions" \notin Deviations THEN St(ctx.col, {}, FALSE) ELSE St(r.col, r.prog, FALSE)
      /\ lastOk' = ~r.err
   /\ UNCHANGED useOverrides
 
@@ -164,9 +174,8 @@ ExpectedNames == LET RECURSIVE Reach(_, _)
                                         ELSE LET n == CHOOSE n \in ns \ seen : TRUE
                                              IN Reach((ns \cup RefsIn(BodyFor(n, FreshSrc(n)))), seen \cup {n})
                  IN Reach(Printable, {})
-\* definitions completed before a throw may stay (they are complete and fresh), so: superset of the expected
-\* names, and nothing but fresh definitions
-OrderIndependent == ExpectedNames \subseteq DOMAIN ctx.col /\ EveryDefinitionIsFresh
+\* exactly the expected names, and nothing but fresh definitions
+OrderIndependent == ExpectedNames = DOMAIN ctx.col /\ EveryDefinitionIsFresh
 
 DesignOK == NothingInProgress /\ RefsClosed /\ OrderIndependent /\ SameOutcomeAsFresh
 =============================================================================
